@@ -245,7 +245,9 @@ pub fn run(cs: &Case) -> Outcome {
     // non-trivial: got past the header (handler ran or a specific reject path answered / refused)
     out.nontrivial = bytes.len() >= 40 && (handler_ran || !d.replies.is_empty() || opname != "?");
     out.fails.extend(d.fails.clone());
-    let partial = matches!(cs.res, MockRes::Read { mode: ReadMode::PartialThenErr, .. });
+    // the filesystem itself put bytes into the reply area and THEN failed: the error reply is the one
+    // message, the bytes behind it stay in the (device-writable) buffers, which virtio permits
+    let partial = matches!(cs.res, MockRes::Read { mode: ReadMode::PartialThenErr, .. }) || fs.dir_returns.lock().unwrap().contains(&crate::mockfs::DIR_FAILED);
     // O2: at most one reply
     if d.replies.len() > 1 {
         out.fail(format!("reply/count:{}/{}", d.replies.len(), opname), format!("{} replies emitted for one request", d.replies.len()));
